@@ -1,0 +1,108 @@
+//go:build verif
+
+// Hooks for the verification harness in /verif (topic "send": C11, C16, C18,
+// C19). Add-only: nothing here is compiled without the `verif` build tag and
+// nothing here changes the behaviour of the package.
+
+package uasc
+
+import (
+	"time"
+
+	"github.com/gopcua/opcua/uacp"
+	"github.com/gopcua/opcua/uapolicy"
+)
+
+// VerifReqLocker / VerifRcvLocker return the two condition lockers as opaque
+// values, comparable (==) with the argument of the "cl.*" verifPoints.
+func (s *SecureChannel) VerifReqLocker() interface{} { return s.reqLocker }
+func (s *SecureChannel) VerifRcvLocker() interface{} { return s.rcvLocker }
+
+func verifLocked(c *conditionLocker) bool {
+	c.lockMu.Lock()
+	defer c.lockMu.Unlock()
+	return c.bLock
+}
+
+// VerifReqLocked / VerifRcvLocked read the flag of the lockers.
+func (s *SecureChannel) VerifReqLocked() bool { return verifLocked(s.reqLocker) }
+func (s *SecureChannel) VerifRcvLocked() bool { return verifLocked(s.rcvLocker) }
+
+// VerifSetRequestIDLocked sets the request id counter under its mutex (models
+// an arbitrary number of intermediate calls of nextRequestID).
+func (s *SecureChannel) VerifSetRequestIDLocked(n uint32) {
+	s.requestIDMu.Lock()
+	s.requestID = n
+	s.requestIDMu.Unlock()
+}
+
+// VerifRequestID reads the request id counter.
+func (s *SecureChannel) VerifRequestID() uint32 {
+	s.requestIDMu.Lock()
+	defer s.requestIDMu.Unlock()
+	return s.requestID
+}
+
+// VerifInstanceOf converts the opaque instance argument of a verifPoint.
+func VerifInstanceOf(x interface{}) *VerifInstance {
+	if c, ok := x.(*channelInstance); ok && c != nil {
+		return &VerifInstance{C: c}
+	}
+	return nil
+}
+
+// TokenID returns the token id of the instance.
+func (v *VerifInstance) TokenID() uint32 { return v.C.securityTokenID }
+
+// LockedSequenceNumber reads the counter under the instance lock.
+func (v *VerifInstance) LockedSequenceNumber() uint32 {
+	v.C.Lock()
+	defer v.C.Unlock()
+	return v.C.sequenceNumber
+}
+
+// VerifScheduleRenewal runs the real scheduleRenewal for a token with the
+// given revised lifetime on a channel that is already closing. The harness
+// hook is expected to stop the call at the "renew.schedule" verifPoint by
+// panicking with the value stop, which is recovered here; should the hook not
+// do so the function returns through the closed `closing` channel for every
+// delay > 0.
+func VerifScheduleRenewal(lifetime time.Duration, stop interface{}) {
+	defer func() {
+		if e := recover(); e != nil && e != stop {
+			panic(e)
+		}
+	}()
+	s := &SecureChannel{closing: make(chan struct{}), reqLocker: newConditionLocker(), rcvLocker: newConditionLocker()}
+	close(s.closing)
+	inst := newChannelInstance(s)
+	inst.revisedLifetime = lifetime
+	s.scheduleRenewal(inst)
+}
+
+// VerifTimeoutLeniency exports the constant added to every request timeout.
+func VerifTimeoutLeniency() time.Duration { return timeoutLeniency }
+
+// VerifOpenServerChannel returns a server-kind secure channel over conn whose
+// opening instance (the one instance object a server channel ever uses) is
+// already active with the given symmetric keys, as it is after a completed
+// OpenSecureChannel(Issue) exchange.
+func VerifOpenServerChannel(conn *uacp.Conn, cfg *Config, channelID, tokenID, seq uint32, localNonce, remoteNonce []byte, errch chan<- error) (*SecureChannel, error) {
+	s, err := NewServerSecureChannel("opc.tcp://verif", conn, cfg, errch, channelID, seq, tokenID)
+	if err != nil {
+		return nil, err
+	}
+	inst := s.openingInstance
+	inst.state = channelActive
+	if inst.algo, err = uapolicy.Symmetric(cfg.SecurityPolicyURI, localNonce, remoteNonce); err != nil {
+		return nil, err
+	}
+	inst.SetMaximumBodySize(int(conn.SendBufSize()))
+	s.instances[channelID] = append(s.instances[channelID], inst)
+	s.activeInstance = inst
+	return s, nil
+}
+
+// VerifAlgoOf returns the algorithm currently installed in the instance
+// argument of a verifPoint (read without the lock, as the code does).
+func (v *VerifInstance) AlgoUnlocked() *uapolicy.EncryptionAlgorithm { return v.C.algo }
